@@ -56,10 +56,15 @@ RULE = {
 }
 ASSUMPTIONS = [
     "the harness plays the resampling actor: it answers every ComponentMetricRequest of an engine with one sample per tick",
-    "all component streams are delivered in lock-step and are valid (fallback behaviour is C19's subject)",
-    "unmetered load exists only at meters not dedicated to one device type (the statement's physical model)",
+    "all component streams are delivered in lock-step; they are valid in the two balance phases; in a third phase one "
+    "generated meter delivers missing values for five ticks and a formula may then emit None or the true total only "
+    "(which source is read when is C19's subject); a grid meter whose direct successors are all one device type is not "
+    "made to fail (the generators' primary formulas allow load there, their fallback assumes none)",
+    "unmetered load exists only at meters not dedicated to one device type (the statement's physical model); the grid meter "
+    "is never a device meter (component_graph.is_*_meter exclude it) and always carries load",
 ]
-MIN_LABELS = {"C12": {"pool_over_subset": 0.1, "inverters_sharing_batteries": 0.1, "no_grid_meter": 0.25, "grid_meter": 0.25, "nested_meters": 0.3, "mixed_meter": 0.3}}
+MIN_LABELS = {"C12": {"pool_over_subset": 0.1, "inverters_sharing_batteries": 0.1, "no_grid_meter": 0.25, "grid_meter": 0.25, "nested_meters": 0.3, "mixed_meter": 0.3,
+                      "meter_goes_missing": 0.15, "mixed_or_grid_meter_goes_missing": 0.05}}
 
 FORMULAS = {
     "grid": GridPowerFormula,
@@ -102,6 +107,9 @@ def strategy(tier: str, pid: str = "C12") -> st.SearchStrategy[Any]:
     return st.fixed_dictionaries({
         "grid_meter": st.booleans(),
         "gm_load": st.tuples(st.integers(1, 9), st.integers(1, 9)),
+        # third phase: one meter delivers missing values for five ticks; a formula may then emit None (no usable
+        # fallback) or the true total (fallback components), never anything else
+        "missing_meter": st.one_of(st.none(), st.integers(0, 7)),
         "top": top,
         "subset": st.lists(st.booleans(), min_size=12, max_size=12),
     })
@@ -287,6 +295,7 @@ def run_case(case: Any, pid: str) -> Verdict:
                         v.fail(f"{name} (fallback={fb}): generate() raised {type(exc).__name__}: {exc}")
             await world.settle(2)
             requests = []
+            truth0: dict[str, float] = {}
             while True:
                 try:
                     requests.append(await asyncio.wait_for(sub_rx.receive(), timeout=0.001))
@@ -309,6 +318,8 @@ def run_case(case: Any, pid: str) -> Verdict:
                         truth[name] = sum(val[n] for n in sub_inverters)
                     else:
                         truth[name] = sum(val[n] for n in ids)
+                if which == 0:
+                    truth0 = dict(truth)
                 ts = world.T0.replace(second=which)
                 sent = set()
                 for req in requests:
@@ -340,6 +351,56 @@ def run_case(case: Any, pid: str) -> Verdict:
                         parts = sum(got[k] for k in keys[1:])
                         if abs(got[("grid", fb)] - parts) > 1e-6:
                             v.fail(f"fallback={fb}: grid {got[('grid', fb)]} != consumer+producer+battery+ev {parts}")
+
+            meters = sorted(n for n, k in g.kind.items() if k == "meter")
+            if v.violations or not meters or case.get("missing_meter") is None:
+                return
+            mm = meters[case["missing_meter"] % len(meters)]
+            kinds_below = {g.kind[c] for c in g.children[mm]}
+            if g.children[1] == [mm] and len(kinds_below) == 1 and kinds_below <= {"batinv", "pvinv", "ev", "chp"}:
+                # a grid meter whose direct successors are all one device type: the generators' primary formulas allow
+                # unmetered load there, their fallback (the successors) assumes there is none; the statement's physical
+                # model does not say which, so this meter is not made to fail
+                v.labels.add("missing_meter_skipped_grid_meter_over_one_device_type")
+                return
+            v.labels.add("meter_goes_missing")
+            if not g.dedicated(mm) and g.has_device_below(mm):
+                v.labels.add("mixed_or_grid_meter_goes_missing")
+            val, _ = g.assign(0)
+            for _name, _fb, _eng, rx in engines:   # drop what is still queued
+                while True:
+                    try:
+                        await asyncio.wait_for(rx.receive(), timeout=0.001)
+                    except Exception:  # pylint: disable=broad-except
+                        break
+            for tick in range(2, 7):
+                while True:
+                    try:
+                        requests.append(await asyncio.wait_for(sub_rx.receive(), timeout=0.001))
+                    except asyncio.TimeoutError:
+                        break
+                ts = world.T0.replace(second=tick)
+                sent = set()
+                for req in requests:
+                    name = req.get_channel_name()
+                    if name in sent:
+                        continue
+                    sent.add(name)
+                    value = None if req.component_id == mm else val.get(req.component_id)
+                    await registry.get_or_create(Sample[Quantity], name).new_sender().send(
+                        Sample(ts, None if value is None else Quantity(value)))
+                await world.settle(3)
+                for name, fb, eng, rx in engines:
+                    while True:
+                        try:
+                            out = await asyncio.wait_for(rx.receive(), timeout=0.001)
+                        except Exception:  # pylint: disable=broad-except
+                            break
+                        if out.value is not None and abs(out.value.as_watts() - truth0[name]) > 1e-6:
+                            v.fail(f"{name} (fallback={fb}): with meter {mm} delivering missing values the formula {eng} "
+                                   f"emitted {out.value.as_watts()} W at tick {tick}; the true {name} power is "
+                                   f"{truth0[name]} W and None would be the only other admissible output")
+                            return
 
     world.run(scenario)
     return v
